@@ -90,8 +90,9 @@ def facts_of_cond(cfg: CFG, c: Node, label: str, depth=0) -> Set[str]:
             if isinstance(v, (ast.ListComp, ast.GeneratorExp)):
                 for g in v.generators:
                     for i in g.ifs:
-                        if isinstance(i, ast.Compare) and isinstance(i.ops[0], ast.NotIn) and role(i.comparators[0]) == "old":
-                            out.add("SOME_NOT_IN_OLD")
+                        for cmpn in [x for x in ast.walk(i) if isinstance(x, ast.Compare) and len(x.ops) == 1]:
+                            if isinstance(cmpn.ops[0], ast.NotIn) and role(cmpn.comparators[0]) == "old":
+                                out.add("SOME_NOT_IN_OLD")
         for n in cfg.live:
             for cc in node_calls(n):
                 if isinstance(cc.func, ast.Attribute) and cc.func.attr == "append" and isinstance(cc.func.value, ast.Name) and cc.func.value.id == e.id:
@@ -210,6 +211,24 @@ def flag_label(repo: Repo, rep):
                 continue  # R-BOUND-ORDER
             facts = facts_at(s.cfg, dnode) | (facts_at(s.cfg, s.node) if dnode is not s.node else set())
             ok, why = judge(label, s.kind, facts, same_value, in_assign)
+            if ok is None and not facts:
+                # the site sits in a helper that only builds the change: judge it at the helper's call sites
+                from ..callgraph import callgraph
+
+                callers = [(cf, c) for cf, c, how in callgraph(repo).callers.get(s.func.key, []) if not cf.module.rel.startswith("@")]
+                verdicts = []
+                for cf, c in callers:
+                    ccfg = cfg_of(cf)
+                    nn = ccfg.nodes_containing(c)
+                    if not nn:
+                        continue
+                    cfacts = facts_at(ccfg, nn[0])
+                    cin = cf.name == "assign" and cf.module.rel.startswith("_adapter/")
+                    verdicts.append(judge(label, s.kind, cfacts, same_value, cin))
+                if verdicts and all(v[0] is True for v in verdicts):
+                    ok, why = True, verdicts[0][1] + f" (judged at {len(verdicts)} call site(s) of the helper)"
+                elif any(v[0] is False for v in verdicts):
+                    ok, why = [v for v in verdicts if v[0] is False][0]
             where = dnode.ast if dnode is not s.node else s.call
             if ok is True:
                 rep.ok("R-FLAG-LABEL", s.func, where, f"{s.kind} `{label}`: {why} [{', '.join(sorted(facts))[:80]}]")
